@@ -439,6 +439,33 @@ theorem step_execApStream (i : Instr) (arg : Value) (name : String) (pos : Nat) 
     | error e => simp only [hth]; exact step_refl c
     | panic e => simp only [hth]; exact step_refl c
 
+/-- `ap` into a stream map: the key-value object inherits tetraplet and provenance of the value -/
+theorem step_execApMap (i : Instr) (key val : Value) (name : String) (pos : Nat) : Rel (Step env) (execApMap i key val name pos) := by
+  unfold execApMap
+  apply rel_bind_joinable_readER SP (step_inc env)
+  · exact rel_pure SP _
+  · intro c va h
+    show Step env c ((M.bind (liftTH i fun th => th.meetApStart) _) c).2
+    simp only [M.bind, liftTH, stateER]
+    cases hth : (traceToExec (c.th.meetApStart) i).bind fun (x : MergerApResult × TraceHandler) => (Res.ok (x.1, { c with th := x.2 }) : ER (MergerApResult × Ctx)) with
+    | ok r =>
+      obtain ⟨met, c1⟩ := r
+      have hc1 : ∃ th', c1 = { c with th := th' } := by
+        cases hm : traceToExec (c.th.meetApStart) i with
+        | ok x => simp [hm, Res.bind] at hth; exact ⟨x.2, hth.2.symm⟩
+        | error e => simp [hm, Res.bind] at hth
+        | panic e => simp [hm, Res.bind] at hth
+      obtain ⟨th', rfl⟩ := hc1
+      simp only [hth]
+      refine (step_preorder env).trans (step_th env c th') ?_
+      refine rel_bind_joinable_readER_at SP (step_inc env) _ (rel_pure SP _) ?_
+      intro k hk
+      refine rel_bind_at SP _ ?_ (fun _ => rel_modifyCtx fun c => step_th env c _)
+      exact step_addStreamValue_at _ (ValueAggregate.new (fromKeyValue k va.result) va.tetraplet va.tracePos va.provenance) name _ pos
+        fun hi => new_ok (pairOK_closed env _) _ _ (applyToArgStream_ok (c := c) (envInv_of_th hi) h)
+    | error e => simp only [hth]; exact step_refl c
+    | panic e => simp only [hth]; exact step_refl c
+
 /-! ## the keys of the tetraplet store only grow: an instance of the generic induction `exec_rel` -/
 
 def KG (c c' : Ctx) : Prop := KeysGrow c.cid c'.cid
@@ -489,7 +516,7 @@ theorem kgPrims : ExecPrims KG where
   pushAp := fun c => kg_same rfl
   thCanonStart := fun c met th' _ => kg_same rfl
   canonTrack := by
-    intro env stream pos peerId c
+    intro env target stream pos peerId c
     unfold KG updCanonTrack
     exact (trackCanonResult_ok env c.cid _).1
   canonFinish := by
@@ -514,7 +541,32 @@ theorem step_of_inv {c c' : Ctx} (hkg : KG c c') (h : EnvInv env c → Step env 
 
 /-! ## canon -/
 
-theorem step_canonFinish_at (c : Ctx) (name : String) (cs : CanonStream) (cid : Cid) (reg : String)
+theorem fromCanonStreamAgg_values {cs : CanonStream} {m : CanonStreamMapAgg} (h : CanonStreamMapAgg.fromCanonStream cs = .ok m) :
+    m.values = cs.values := by
+  unfold CanonStreamMapAgg.fromCanonStream at h
+  split at h
+  · injection h with h; subst h; rfl
+  · cases h
+  · cases h
+
+/-- what a `canon` binds (a canon stream, a canon map, or the scalar form) is justified when the canon stream's values are -/
+theorem canonBind_ok {c : Ctx} {target : CanonTarget} {cs : CanonStream} {cid : Cid} {sc : Scalars}
+    (hs : ScalarsOK (PairOK env c.cid) c.scalars) (hv : AllAgg (PairOK env c.cid) cs.values)
+    (h : canonBind target cs cid c = .ok sc) : ScalarsOK (PairOK env c.cid) sc := by
+  unfold canonBind at h
+  split at h
+  · exact setCanonValue_ok hs (show CanonOK (PairOK env c.cid) ⟨cs, cid⟩ from hv) h
+  · obtain ⟨m, hm, h2⟩ := res_bind_ok'' h
+    refine setCanonMapValue_ok hs (show CanonMapOK (PairOK env c.cid) ⟨m, cid⟩ from ?_) h2
+    show AllAgg (PairOK env c.cid) m.values
+    rw [fromCanonStreamAgg_values hm]; exact hv
+  · split at h
+    · simp [uncatchable] at h
+    · rename_i first _
+      exact setScalarValue_ok hs (show AggP (PairOK env c.cid)
+        ⟨first.result, { peerPk := cs.tetraplet.peerPk, lens := cs.tetraplet.lens }, c.th.tracePos, .canon cid⟩ from trivial) h
+
+theorem step_canonFinish_at (c : Ctx) (name : CanonTarget) (cs : CanonStream) (cid : Cid) (reg : String)
     (hv : EnvInv env c → AllAgg (PairOK env c.cid) cs.values) : Step env c ((canonFinish name cs cid reg) c).2 := by
   unfold canonFinish
   apply rel_modifyER_at SP
@@ -523,21 +575,21 @@ theorem step_canonFinish_at (c : Ctx) (name : String) (cs : CanonStream) (cid : 
   simp only [pure] at h2
   injection h2 with h2; subst h2
   refine step_keep (by simp) (by simp) fun hi => ?_
-  exact ⟨by simpa using hi.keyed, by simpa using setCanonValue_ok hi.scalars (show CanonOK (PairOK env c.cid) ⟨cs, cid⟩ from hv hi) hs, by simpa using hi.streams,
+  exact ⟨by simpa using hi.keyed, by simpa using canonBind_ok hi.scalars (hv hi) hs, by simpa using hi.streams,
     by simpa using hi.error, by simpa using hi.lastError⟩
 
-theorem step_createCanonFirstTime (name stream : String) (pos : Nat) (peerId : String) :
+theorem step_createCanonFirstTime (name : CanonTarget) (stream : String) (pos : Nat) (peerId : String) :
     Rel (Step env) (createCanonFirstTime env name stream pos peerId) := by
   intro c
   have h1 : (createCanonFirstTime env name stream pos peerId) c =
-      (canonFinish name (updCanonTrack env stream pos peerId c).1.1 (updCanonTrack env stream pos peerId c).1.2 peerId)
-        (updCanonTrack env stream pos peerId c).2 := rfl
+      (canonFinish name (updCanonTrack env name stream pos peerId c).1.1 (updCanonTrack env name stream pos peerId c).1.2 peerId)
+        (updCanonTrack env name stream pos peerId c).2 := rfl
   rw [h1]
-  have hg : KeysGrow c.cid (updCanonTrack env stream pos peerId c).2.cid := by
+  have hg : KeysGrow c.cid (updCanonTrack env name stream pos peerId c).2.cid := by
     unfold updCanonTrack; exact (trackCanonResult_ok env c.cid _).1
-  have hstep1 : Step env c (updCanonTrack env stream pos peerId c).2 := by
+  have hstep1 : Step env c (updCanonTrack env name stream pos peerId c).2 := by
     refine step_keep_grow (by unfold updCanonTrack; rfl) hg fun hi => ?_
-    have hk : Keyed env (updCanonTrack env stream pos peerId c).2.cid := by
+    have hk : Keyed env (updCanonTrack env name stream pos peerId c).2.cid := by
       unfold updCanonTrack; exact (trackCanonResult_ok env c.cid _).2 hi.keyed
     have := envInv_grow hg hk hi
     exact ⟨this.keyed, this.scalars, this.streams, this.error, this.lastError⟩
@@ -545,15 +597,28 @@ theorem step_createCanonFirstTime (name stream : String) (pos : Nat) (peerId : S
   apply step_canonFinish_at
   intro hi1
   -- the snapshot consists of values of the stream store, which the tracking step did not touch
-  have hvals : (updCanonTrack env stream pos peerId c).1.1.values = (match c.getStream stream pos with | some s => s.all | none => []) := rfl
-  rw [hvals]
-  have hstr : (updCanonTrack env stream pos peerId c).2.streams = c.streams := rfl
-  cases hgs : c.getStream stream pos with
-  | none => exact allAgg_nil _
-  | some s =>
-    have hgs' : (updCanonTrack env stream pos peerId c).2.getStream stream pos = some s := by
-      unfold Ctx.getStream at hgs ⊢; rw [hstr]; exact hgs
-    exact stream_all_ok (getStream_ok hi1.streams hgs')
+  -- (the scalar form of a map canon: ONE literal value)
+  have hstr : (updCanonTrack env name stream pos peerId c).2.streams = c.streams := rfl
+  have hsnap : AllAgg (PairOK env (updCanonTrack env name stream pos peerId c).2.cid)
+      (match c.getStream stream pos with | some s => s.all | none => []) := by
+    cases hgs : c.getStream stream pos with
+    | none => exact allAgg_nil _
+    | some s =>
+      have hgs' : (updCanonTrack env name stream pos peerId c).2.getStream stream pos = some s := by
+        unfold Ctx.getStream at hgs ⊢; rw [hstr]; exact hgs
+      exact stream_all_ok (getStream_ok hi1.streams hgs')
+  cases name with
+  | stream n => exact hsnap
+  | map n => exact hsnap
+  | scalar n =>
+    intro v hv
+    have hp : (updCanonTrack env (.scalar n) stream pos peerId c).1.1.values.map (·.provenance) = [Provenance.literal] := by
+      simp [updCanonTrack, canonProduce]
+    have : v.provenance = .literal := by
+      have hm := List.mem_map_of_mem (f := (·.provenance)) hv
+      rw [hp] at hm; simpa using hm
+    show PairOK env _ v.tetraplet v.provenance
+    rw [this]; trivial
 
 theorem mapM_loop_ok {ε α β : Type} (f : α → Res ε β) : ∀ (as : List α) (bs vs : List β),
     List.mapM.loop f as bs = .ok vs → ∀ v ∈ vs, v ∈ bs ∨ ∃ x ∈ as, f x = .ok v
@@ -603,7 +668,7 @@ theorem getCanonValueByCid_ok {s : CidState} {cid : Cid} {va : ValueAggregate} (
       | literal => trivial
       | canon k => trivial
 
-theorem step_canonExecuted (name : String) (peer : Value) (cid : Cid) : Rel (Step env) (canonExecuted env name peer cid) := by
+theorem step_canonExecuted (name : CanonTarget) (peer : Value) (cid : Cid) : Rel (Step env) (canonExecuted env name peer cid) := by
   unfold canonExecuted
   apply rel_bind_readER SP
   intro c cs h
@@ -621,7 +686,7 @@ theorem step_canonExecuted (name : String) (peer : Value) (cid : Cid) : Rel (Ste
     obtain ⟨x, _, hx⟩ := mapM_ok _ _ _ hm v hv
     exact getCanonValueByCid_ok hi.keyed hx
 
-theorem step_execCanon (i : Instr) (peer : Value) (stream : String) (pos : Nat) (name : String) :
+theorem step_execCanon (i : Instr) (peer : Value) (stream : String) (pos : Nat) (name : CanonTarget) :
     Rel (Step env) (execCanon env i peer stream pos name) := by
   unfold execCanon
   apply rel_bind SP (rel_liftTH SP _ _ (step_th env)); intro met
@@ -673,6 +738,14 @@ theorem step_newLeaveCanon {c c' : Ctx} {name : String} {b : Bool} (h : newLeave
   simp only at hs
   injection hs with hs; injection hs with _ hs; subst hs
   exact s_meetNewEndCanon_ok name hi.scalars
+
+theorem step_newLeaveCanonMap {c c' : Ctx} {name : String} {b : Bool} (h : newLeaveCanonMap name c = .ok (b, c')) : Step env c c' := by
+  unfold newLeaveCanonMap at h
+  refine step_withScalarsRet h ?_
+  intro a sc hi hs
+  simp only at hs
+  injection hs with hs; injection hs with _ hs; subst hs
+  exact s_meetNewEndCanonMap_ok name hi.scalars
 
 theorem step_throwIfNotCatchable (res : Res ExecErr Unit) : Rel (Step env) (throwIfNotCatchable res) := by
   unfold throwIfNotCatchable
@@ -977,6 +1050,86 @@ theorem step_foldStream (stream : String) (pos : Nat) (iterator : String) (body 
           · apply rel_modifyCtx; intro c; samestate
           · intro _; exact rel_liftTH' SP _ _ (step_th env)
 
+theorem step_newCanonMap (name : String) (body : Instr) (sl sr : Nat) : Rel (Step env) (execInner env fuel (.new (.canonMap name) body sl sr)) := by
+  simp only [execInner]
+  apply rel_bind SP
+  · apply rel_modifyCtx; intro c
+    exact step_keep rfl rfl fun hi => ⟨hi.keyed, s_meetNewStartCanonMap_ok name hi.scalars, hi.streams, hi.error, hi.lastError⟩
+  · intro _
+    apply rel_bind SP (rel_tryM (ih _)); intro res
+    apply rel_bind SP
+    · exact rel_stateER SP fun c a c' h => step_newLeaveCanonMap h
+    · intro ok
+      split
+      · split
+        · exact rel_pure SP _
+        · apply rel_bind SP (rel_readCtx SP _); intro _; exact rel_throwE SP _
+      · exact rel_reraise SP _
+
+theorem step_newStreamMap (name : String) (body : Instr) (sl sr : Nat) : Rel (Step env) (execInner env fuel (.new (.streamMap name) body sl sr)) := by
+  simp only [execInner]
+  apply rel_bind SP
+  · apply rel_modifyCtx; intro c
+    exact step_onlyStreams (onlyStreams_scopeStart c name sl sr) fun hi => scopeStart_ok name sl sr hi.streams
+  · intro _
+    apply rel_bind SP (rel_tryM (ih _)); intro res
+    apply rel_bind SP
+    · apply rel_tryM
+      apply rel_modifyER SP
+      intro c c' h
+      have ho := onlyStreams_scopeEnd h
+      exact step_keep ho.reqs ho.cid fun hi =>
+        ⟨by rw [ho.cid]; exact hi.keyed, by rw [ho.cid, ho.scalars]; exact hi.scalars, by rw [ho.cid]; exact scopeEnd_ok hi.streams h,
+         by rw [ho.cid, ho.error]; exact hi.error, by rw [ho.cid, ho.lastError]; exact hi.lastError⟩
+    · intro ep
+      split
+      · exact rel_pure SP _
+      · exact rel_reraise SP _
+      · exact rel_reraise SP _
+
+theorem step_foldMap (stream : String) (pos : Nat) (iterator : String) (body : Instr) (last : Option Instr) (sl : Nat) :
+    Rel (Step env) (execInner env fuel (.foldMap stream pos iterator body last sl)) := by
+  simp only [execInner]
+  apply rel_bind SP (rel_readCtx SP _); intro ex
+  split
+  · exact step_makeSubgraphIncomplete
+  · apply rel_bind SP
+    · apply rel_stateER SP
+      intro c a c' h
+      injection h with h; injection h with _ h; subst h
+      samestate
+    · intro foldId
+      apply rel_bind SP (rel_liftTH' SP _ _ (step_th env)); intro _
+      unfold foldStreamGet
+      apply rel_bind_readER SP
+      intro c1 s hs
+      have hsome : c1.getStream stream pos = some s := by
+        cases hgs : c1.getStream stream pos with
+        | some s' => simp [hgs] at hs; rw [hs]
+        | none => simp [hgs] at hs
+      have hKG := exec_kg env fuel
+      have hmf : metFoldStart s = ((metFoldStart s).1, (metFoldStart s).2.1, (metFoldStart s).2.2) := rfl
+      rw [hmf]
+      simp only []
+      refine step_of_inv ?_ (fun hi1 => ?_)
+      · refine (show Rel KG _ from ?_) c1
+        apply rel_bind kgPrims.pre (rel_modifyCtx fun c => ep_setStream kgPrims _ _ _ c); intro _
+        apply rel_bind kgPrims.pre (ep_execFoldStreamLoop kgPrims env fuel hKG _ _ _ _ _ _ _ _ _ _ _); intro complete
+        apply rel_bind kgPrims.pre
+        · apply rel_modifyCtx; intro c; exact kg_same rfl
+        · intro _; exact rel_liftTH' kgPrims.pre _ _ (fun c th => kg_same rfl)
+      · have hso := getStream_ok hi1.streams hsome
+        obtain ⟨hs', hsl⟩ := metFoldStart_ok (P := PairOK env c1.cid) hso
+        refine rel_bind_guard SP (G := fun c' => ∀ l', (metFoldStart s).1 = some l' → SlicesOK (PairOK env c'.cid) l')
+          (fun (ca cb : Ctx) hga (hst : Step env ca cb) l' hl' => slicesOK_mono (fun _ _ => pairOK_mono hst.1) (hga l' hl')) c1 hsl ?_ ?_
+        · exact step_setStream_at c1 stream pos _ (fun _ => hs')
+        · intro _ c2 hg2
+          refine rel_bind_at SP c2 (step_execFoldStreamLoop fuel ih _ stream pos iterator body last foldId fuel _ _ false c2 hg2) ?_
+          intro complete
+          apply rel_bind SP
+          · apply rel_modifyCtx; intro c; samestate
+          · intro _; exact rel_liftTH' SP _ _ (step_th env)
+
 /-- one layer of the interpreter -/
 theorem step_execInner (i : Instr) : Rel (Step env) (execInner env fuel i) := by
   cases i with
@@ -1003,14 +1156,12 @@ theorem step_execInner (i : Instr) : Rel (Step env) (execInner env fuel i) := by
     | scalar name => exact step_newScalar fuel ih name body sl sr
     | stream n => exact step_newStream fuel ih n body sl sr
     | canon n => exact step_newCanon fuel ih n body sl sr
-    -- outside the modelled fragment today (the model answers `unmodelled`)
-    | streamMap n => simp only [execInner]; exact rel_throwE SP _
-    | canonMap n => simp only [execInner]; exact rel_throwE SP _
-  -- outside the modelled fragment today (the model answers `unmodelled`)
-  | apMap k v m p => simp only [execInner]; exact rel_throwE SP _
-  | canonMap p m mp c => simp only [execInner]; exact rel_throwE SP _
-  | canonMapScalar p m mp s => simp only [execInner]; exact rel_throwE SP _
-  | foldMap m mp it b l sl => simp only [execInner]; exact rel_throwE SP _
+    | streamMap n => exact step_newStreamMap fuel ih n body sl sr
+    | canonMap n => exact step_newCanonMap fuel ih n body sl sr
+  | apMap k v m p => simp only [execInner]; exact step_execApMap _ _ _ _ _
+  | canonMap p m mp c => simp only [execInner]; exact step_execCanon _ _ _ _ _
+  | canonMapScalar p m mp s => simp only [execInner]; exact step_execCanon _ _ _ _ _
+  | foldMap m mp it b l sl => exact step_foldMap fuel ih m mp it b l sl
 
 end instrs
 
